@@ -144,9 +144,9 @@ def collect(ctx):
         g4ret = [g for g in g4 if rg.can_all_return(g)]
         for succ in rng.sample(g4ret, 220) + rng.sample(g4, 30):
             add_graph("all4", succ)
-    for k in range(1500 if thorough else 260):
+    for k in range(2000 if thorough else 260):
         add_graph("prog", rg.structured_graph(rng, budget=rng.randrange(3, 10), merge=(k % 2 == 0)))
-    for k in range(1500 if thorough else 200):
+    for k in range(2000 if thorough else 200):
         # few conditional blocks without a way out: the detection crashes on those (known finding)
         add_graph("rand", rg.random_graph(rng, rng.randrange(4, 9), all_return=(k % 8 != 0)))
     # real ir functions: the random IR generator of the harness and C sources through the front-end
@@ -210,7 +210,8 @@ class Engine:
                  "class, every action taken, every clause holds on the right trees and exactly the expected clauses "
                  "fail on the wrong ones).  T: graphs = named classes (through find_structure on an ir function and "
                  "through StructureDetector.detect on a hand-built ControlFlowGraph), every graph on <= 3 blocks "
-                 "(thorough: <= 4) with <= 2 successors per block up to renumbering, random structured programs "
+                 "(thorough: <= 4) with <= 2 successors per block up to renumbering (quick: of those with a block "
+                 "that cannot reach a return every fifth, and a sample of 250 4-block graphs), random structured programs "
                  "lowered to graphs, random graphs of 4..8 blocks, functions of the harness IR generator and of C "
                  "sources; for each, TLC explores every product state of CFG walk x shape interpreter (= every "
                  "sequence of branch decisions).  distinct = distinct (path into ppci, graph)")
@@ -257,7 +258,7 @@ class Engine:
                 raise tlcmod.MachineryError("Reloop_MC case %d (%s): clauses failing %s, expected %s" % (
                     idx, name, sorted(got.get(idx, set())), sorted(exp)))
         acts = tlcmod.action_coverage(res)
-        missing = [a for a in MC_ACTIONS if not acts.get("Reloop." + a)]
+        missing = [a for a in MC_ACTIONS if not (acts.get("Reloop." + a) or acts.get("Reloop_MC." + a))]
         if missing:
             raise tlcmod.MachineryError("Reloop_MC does not take the actions %s" % missing)
         ctx.cov["mc_cases"] = len(expect)
